@@ -84,5 +84,12 @@ ExpVerify == [sig |-> SigExp, pred_ok |-> out.ok, gas |-> out.gas, full |-> out.
 ExpEstimate == [est_ok |-> out.ok, est_why |-> EstWhy(tx),
                 est_gas |-> IF out.ok THEN GasList(out.etx) ELSE <<>>, ver_gas |-> out.gas]
 Line == [tx |-> tx, mode |-> mode, order |-> Order, exp |-> IF mode = "verify" THEN ExpVerify ELSE ExpEstimate]
-Emit == (EmitReplay /\ Final) => PrintT("REPLAY" \o ToJson(Line))
+\* Every final state is model-checked; all of them are printed for replay up to 3 inputs, and with 4 inputs
+\* those over the core variants (one representative per way of failing), which keeps the replay affordable.
+Core4 == { Pred(TRUE, PA, N(PA)), Pred(TRUE, PA, BNM!Sub(N(PA), "1")), Pred(TRUE, PA, BNM!Add(N(PA), "1")), Pred(FALSE, PA, N(PA)),
+           Pred(TRUE, P(0, 0, "ret2"), "14"), Pred(TRUE, P(0, 0, "spin"), "40"), Pred(TRUE, PB, N(PB)),
+           Pred(TRUE, PA, "0"), Pred(FALSE, PA, "0"), Pred(TRUE, P(0, 0, "ret2"), "0"), Pred(TRUE, P(0, 0, "spin"), "0"),
+           Pred(TRUE, PB, "7"), Pred(TRUE, PBig, "0") }
+Printed == Len(tx.inputs) < 4 \/ \A i \in InIdx(tx) : tx.inputs[i] \in Core4
+Emit == (EmitReplay /\ Final /\ Printed) => PrintT("REPLAY" \o ToJson(Line))
 =============================================================================
